@@ -58,12 +58,14 @@ def _convert(seed):
             rb = round(rnd.uniform(0.05, 0.12), 4) if rnd.random() < 0.4 else round(rnd.uniform(0.06, 0.085), 4)
             m_flow = rnd.choice([0.05, 0.1, 0.2, 0.3, 0.5, 0.8])
             desc = {"kind": kind, "r_b": rb, "k_g": grout.k, "k_s": soil.k, "m_flow": m_flow}
+            thick = rnd.random() < 0.25        # heavy-wall pipes: the fluid takes less than a quarter of the tube cross-section
+            desc["thick"] = thick
             if kind == "COAXIAL":
                 r_oo = round(rnd.uniform(0.03, rb - 0.008), 4)
                 t_o = round(rnd.uniform(0.003, 0.007), 4)
                 r_oi = r_oo - t_o
                 r_io = round(rnd.uniform(0.012, r_oi - 0.006), 4)
-                t_i = round(rnd.uniform(0.002, 0.004), 4)
+                t_i = round(rnd.uniform(0.002, 0.004), 4) if not thick else round(rnd.uniform(0.5, 0.8) * r_io, 4)
                 r_ii = r_io - t_i
                 if r_ii <= 0.004:
                     continue
@@ -74,7 +76,7 @@ def _convert(seed):
                 vp0 = math.pi * (r_io**2 - r_ii**2 + r_oo**2 - r_oi**2)
             else:
                 r_out = round(rnd.uniform(0.012, 0.022), 4)
-                r_in = r_out - round(rnd.uniform(0.002, 0.004), 4)
+                r_in = r_out - round(rnd.uniform(0.002, 0.004), 4) if not thick else round(rnd.uniform(0.3, 0.48) * r_out, 4)
                 s_min = 0.83 * r_out
                 s_max = min(2 * (rb - 2 * r_out) - 0.002, 0.045)
                 if s_max <= s_min:
